@@ -738,11 +738,13 @@ def rule_r7(repo, run):
                         if _member_test(t, key, dd) is not None and _member_test(t, key, dd) == pol:
                             ok = True
                     for t, pol in pyflow.early_exit_guards(f, node):
-                        if _member_test(t, key, dd) is False:
-                            ok = True
-                        # `if "a" not in x or "b" not in x: raise`
-                        if isinstance(t, ast.BoolOp) and isinstance(t.op, ast.Or) and \
-                                any(_member_test(v, key, dd) is False for v in t.values):
+                        # the exit must be taken whenever the key is missing: the test is `key not in d`
+                        # itself or a disjunction containing it (a conjunction only exits when *all* are missing)
+                        if isinstance(t, ast.BoolOp):
+                            if isinstance(t.op, ast.Or) and any(
+                                    not isinstance(v, ast.BoolOp) and _member_test(v, key, dd) is False for v in t.values):
+                                ok = True
+                        elif _member_test(t, key, dd) is False:
                             ok = True
                 run.check(R, "%s.%s:%s[%r]" % (mname, q, d, key), ok,
                           "%s[%r] is read without a dominating `%r in %s` test: a YAML file that omits the key "
@@ -842,6 +844,98 @@ def rule_r8(repo, run):
     run.floor(R, "iterations over raw YAML values", n, 4)
 
 
+def rule_r9(repo, run):
+    R = run.rule("C17.R9", "user expressions and messages: positional access to parsed argument lists is guarded by an "
+                           "exact length and kind check, valueless attributes are rejected before being parsed, "
+                           "messages are formatted once, keyword tests reject the other keywords")
+    gm = repo.module("generate")
+    dm = repo.module("declast")
+    f = gm.func("CheckImplied.visit_Identifier")
+    n = 0
+    for sub in ast.walk(f):
+        if not (isinstance(sub, ast.Subscript) and isinstance(sub.ctx, ast.Load) and isinstance(sub.slice, ast.Constant)
+                and isinstance(sub.slice.value, int) and (pyflow.dotted(sub.value) or "").endswith(".args")):
+            continue
+        n += 1
+        k = sub.slice.value
+        lst = gm.seg(sub.value)
+        proves = False
+        guards = [(t, True) for t, pol in pyflow.early_exit_guards(f, sub)] + \
+                 [(t, pol) for t, pol in pyflow.dominating_tests(sub, stop=f)]
+        early = set(id(t) for t, pol in pyflow.early_exit_guards(f, sub))
+        for t, pol in guards:
+            for c in ast.walk(t):
+                if isinstance(c, ast.Compare) and isinstance(c.left, ast.Call) and pyflow.is_name(c.left.func, "len") \
+                        and c.left.args and gm.seg(c.left.args[0]) == lst and isinstance(c.comparators[0], ast.Constant):
+                    nn = c.comparators[0].value
+                    op = type(c.ops[0]).__name__
+                    if id(t) in early:       # the exit is taken when the test holds: afterwards its negation holds
+                        if (op == "NotEq" and nn >= k + 1) or (op == "Lt" and nn >= k + 1) or (op == "LtE" and nn >= k):
+                            proves = True
+                    elif pol and ((op == "Eq" and nn >= k + 1) or (op == "GtE" and nn >= k + 1) or (op == "Gt" and nn >= k)):
+                        proves = True
+        run.check(R, "generate.CheckImplied.visit_Identifier:%s[%d]@%d" % (lst, k, sub.lineno - f.lineno), proves,
+                  "%s[%d] is read but no preceding check guarantees that the list has %d element(s): `%s()` without "
+                  "arguments ends in IndexError instead of the diagnostic" % (lst, k, k + 1, "len"), gm.loc(sub))
+        # kind of the element before its .name is used
+        par = getattr(sub, "_parent", None)
+        if isinstance(par, ast.Attribute) and par.attr == "name":
+            n += 1
+            kinds = any("isinstance" in gm.seg(t) and gm.seg(sub) in gm.seg(t) for t, pol in guards)
+            run.check(R, "generate.CheckImplied.visit_Identifier:%s[%d].name@%d" % (lst, k, sub.lineno - f.lineno), kinds,
+                      "%s[%d].name is read without checking that the argument is an identifier: size(1) ends in "
+                      "AttributeError" % (lst, k), gm.loc(sub))
+    run.floor(R, "positional reads of implied-function arguments", n, 4)
+    # valueless attribute
+    ci = gm.func("check_implied_attrs")
+    calls = [c for c in ast.walk(ci) if isinstance(c, ast.Call) and (pyflow.call_name(c) or "") == "check_implied"]
+    ok = False
+    for c in calls:
+        arg = gm.seg(c.args[1]) if len(c.args) > 1 else ""
+        for t, pol in pyflow.early_exit_guards(ci, c):
+            if gm.seg(t) == "%s is True" % arg:
+                ok = True
+    run.check(R, "generate.check_implied_attrs:valueless", bool(calls) and ok,
+              "`+implied` without a value is stored as True and handed to the expression parser (TypeError); it must be "
+              "rejected first", gm.loc(ci))
+    # messages formatted once
+    em = dm.func("RecursiveDescent.error_msg")
+    pre = []
+    for q, fn in dm.functions().items():
+        for c in ast.walk(fn):
+            if isinstance(c, ast.Call) and (pyflow.call_name(c) or "") == "self.error_msg" and len(c.args) == 1 and \
+                    isinstance(c.args[0], ast.Call) and isinstance(c.args[0].func, ast.Attribute) and c.args[0].func.attr == "format":
+                pre.append(q)
+    fmts = [c for c in ast.walk(em) if isinstance(c, ast.Call) and isinstance(c.func, ast.Attribute) and c.func.attr == "format"
+            and any(isinstance(a, ast.Starred) for a in c.args)]
+    guarded = all(any(isinstance(p_, ast.IfExp) or isinstance(p_, ast.If) for p_ in parent_chain(c)) for c in fmts)
+    run.check(R, "declast.RecursiveDescent.error_msg:format-once", not pre or guarded,
+              "%d callers pass an already formatted message (%s...) and error_msg formats it again unconditionally: "
+              "braces from the user's text end in ValueError/KeyError" % (len(pre), sorted(set(pre))[:2]), dm.loc(em),
+              sample=dict(preformatted_callers=sorted(set(pre))))
+    # a test for one keyword of a token class rejects the others
+    nk = 0
+    for q, fn in sorted(dm.functions().items()):
+        if not q.startswith("Parser."):
+            continue
+        for outer in ast.walk(fn):
+            if not isinstance(outer, (ast.If, ast.While)) or "self.token.typ ==" not in dm.seg(outer.test):
+                continue
+            for inner in outer.body:
+                if isinstance(inner, ast.If) and dm.seg(inner.test).startswith("self.token.value =="):
+                    nk += 1
+                    last = inner
+                    while len(last.orelse) == 1 and isinstance(last.orelse[0], ast.If):
+                        last = last.orelse[0]
+                    rejects = any(isinstance(x, ast.Raise) or (isinstance(x, ast.Call) and (pyflow.call_name(x) or "").endswith("error_msg"))
+                                  for st in last.orelse for x in ast.walk(st))
+                    run.check(R, "declast.%s:%s" % (q, dm.seg(inner.test)), rejects,
+                              "the token class %s is entered but only the value tested by `%s` is handled: any other "
+                              "keyword of that class is silently accepted or skipped" % (dm.seg(outer.test), dm.seg(inner.test)),
+                              dm.loc(inner))
+    run.floor(R, "keyword tests inside a token-class branch", nk, 1)
+
+
 def run(repo, run, tier):
     P = Program(repo)
     rule_r1(repo, run, P)
@@ -852,3 +946,4 @@ def run(repo, run, tier):
     rule_r6(repo, run)
     rule_r7(repo, run)
     rule_r8(repo, run)
+    rule_r9(repo, run)
